@@ -21,7 +21,7 @@ def tracked_fields(cls):
     out = {}
     for f, fty in C.RECORDS.get(cls, {}).items():
         p = parse_type(fty)
-        if p[0] in ('int', 'bool', 'str'):
+        if p[0] in ('int', 'bool', 'str', 'val'):
             out[f] = p
     return out
 
@@ -45,6 +45,9 @@ def empty_recseq(cls):
 def element_view(eng, ref, o, j, st):
     """Read-only view of element j of a HRecSeq."""
     vals = {f: wrap(At(seq, j), p) for f, (seq, p) in o.fields.items()}
+    if eng.pure:
+        for f, (seq, p) in o.fields.items():
+            eng.note_pattern(At(seq, j), j)     # trigger candidates when j is a bound variable
     return st.alloc(HInst(o.cls, vals, view=('recseq%d' % ref.loc, j)))
 
 
